@@ -956,6 +956,61 @@ fn direct_constructors() {
     out::eval(8);
 }
 
+/// Data x alignment x history: almost-zero buffers (a single non-zero byte near either end) written
+/// into zeroed memory, and zero buffers written over memory that is zero except near the ends, for
+/// every misalignment of both sides and lengths on both sides of 4096 (zero-detection shortcuts
+/// inspect the bytes in words: the unaligned head and tail are where they go wrong).
+fn almost_zero_transfers(shard: (u64, u64)) {
+    let a = Cont::arena(3 * 4096 + 64, Place::C(0));
+    let s = a.slice();
+    let mut n = 0u64;
+    let mut backing = vec![0u8; 3 * 4096 + 64];
+    for len in [4095usize, 4096, 4097, 4100, 4103, 8192, 8199] {
+        for lm in 0..8usize {
+            if (lm as u64) % shard.1 != shard.0 % 8.min(shard.1) && shard.1 > 1 {
+                continue;
+            }
+            for gmis in 0..8usize {
+                let goff = 8 + gmis;
+                // positions of the single non-zero byte: first 9 and last 17 bytes
+                let mut pos: Vec<usize> = (0..9).collect();
+                pos.extend((len - 17)..len);
+                for p in pos {
+                    for dir in 0..2u8 {
+                        let zeros = vec![0u8; a.len()];
+                        a.fill(&zeros);
+                        let buf = &mut backing[lm..lm + len];
+                        buf.iter_mut().for_each(|b| *b = 0);
+                        let want_mem;
+                        if dir == 0 {
+                            // almost-zero buffer into zero memory
+                            buf[p] = 0x5d;
+                            want_mem = Some((goff + p, 0x5du8));
+                        } else {
+                            // zero buffer over memory that is zero except one byte
+                            let mut one = vec![0u8; 1];
+                            one[0] = 0x77;
+                            let _ = s.write(&one, goff + p);
+                            want_mem = None;
+                        }
+                        let k = s.write(buf, goff);
+                        let mem = a.read_all();
+                        let ok = k.as_ref().ok() == Some(&len) && mem.iter().enumerate().all(|(i, b)| match want_mem { Some((at, v)) if i == at => *b == v, _ => *b == 0 });
+                        if !ok {
+                            v("almost-zero/bytes-differ-from-model", jobj! {"len" => len, "local_misalignment" => lm, "guest_misalignment" => gmis % 8, "position_of_the_nonzero_byte" => p, "direction" => if dir == 0 { "nonzero byte in the buffer" } else { "nonzero byte in memory" }});
+                            return;
+                        }
+                        n += 1;
+                    }
+                }
+            }
+        }
+    }
+    out::key("almost-zero|write", true);
+    out::eval(n);
+    out::count("almost_zero_transfers", n as i128);
+}
+
 /// Transfer magnitude: lengths at and around powers of two up to several MiB (chunked bulk
 /// copies, size-threshold fast paths) on an mmap-backed container, every byte-moving route.
 fn big_transfers(shard: (u64, u64)) {
@@ -1071,6 +1126,9 @@ pub fn run(args: &Args) {
     out::set_quiet_cases(true);
     let (si, _) = args.shard();
     if !cfg!(miri) && !args.flag("nobig") {
+        if let Err(p) = guarded(|| almost_zero_transfers(args.shard())) {
+            v(&format!("panic/almost-zero/{}", panic_sig(&p)), J::s(p));
+        }
         if let Err(p) = guarded(|| big_transfers(args.shard())) {
             v(&format!("panic/big/{}", panic_sig(&p)), J::s(p));
         }
